@@ -1,4 +1,6 @@
 import DEvo.Props.C08
+import DEvo.Mut.Steps
+import DEvo.Mut.Env
 
 /-! # C04 — all upgrade paths converge: fresh install, stepwise, direct
 
@@ -7,7 +9,7 @@ required" afterwards) is proved here over the run-history model of C08; that sch
 stored signature converge is what C01/C02/C03 are about and is observed by the path oracle. -/
 
 namespace DEvo.Props.C04
-open DEvo.Run DEvo.Props.C08
+open DEvo.Run DEvo.Props.C08 DEvo.Mut DEvo.Sig
 
 def labelSet (s : HState) (app : String) : List String :=
   (s.recorded.filter (fun r => r.app == app)).map (·.label)
@@ -58,5 +60,59 @@ theorem C04_paths_converge (s1 s2 : HState) (a : AppCfg)
     (l : String) (hl : l ∈ a.sequence) :
     isRecorded (stepH s1 (.run [a] true)) a.label l = isRecorded (stepH s2 (.run [a] true)) a.label l := by
   rw [C04_all_recorded s1 a l hl, C04_all_recorded s2 a l hl]
+
+/-- one release at a time: every evolution is simulated by its own run, which starts from the
+app's configured label again -/
+def stepwise (e : Env) (fl : Flags) (c : Ctx) : List (List Mutation) → ProjectSig → Except SimErr ProjectSig
+  | [], p => .ok p
+  | ev :: rest, p =>
+    match simulateAll e fl c ev p with
+    | .error err => .error err
+    | .ok r => stepwise e fl c rest r.1
+
+/-- all pending evolutions in one run -/
+def direct (e : Env) (fl : Flags) (c : Ctx) (evs : List (List Mutation)) (p : ProjectSig) : Except SimErr ProjectSig :=
+  match simulateAll e fl c evs.flatten p with
+  | .error err => .error err
+  | .ok r => .ok r.1
+
+/-- **the signature reached does not depend on how the pending evolutions are split over runs**:
+simulating them one release at a time, each run starting again from the app's configured
+label, gives the same project signature (or the same error) as simulating all of them in one
+run — for every signature, every list of evolutions and every mutation kind, provided a
+`RenameAppLabel` among them renames to the label the app is configured with -/
+theorem C04_signature_stepwise_eq_direct (e : Env) (fl : Flags) (c : Ctx) (evs : List (List Mutation)) (p : ProjectSig)
+    (hm : ∀ ev ∈ evs, ∀ m ∈ ev, keepsLabel c m = true) :
+    stepwise e fl c evs p = direct e fl c evs p := by
+  induction evs generalizing p with
+  | nil => simp [stepwise, direct, simulateAll]
+  | cons ev rest ih =>
+    unfold direct
+    simp only [stepwise, List.flatten_cons, simulateAll_append, bind, Except.bind]
+    cases h : simulateAll e fl c ev p with
+    | error err => rfl
+    | ok r =>
+      have hc := simulateAll_ctx e fl c r.2 ev p r.1 (hm ev (by simp)) (by rw [h])
+      simp only [hc]
+      rw [ih r.1 (fun ev' h' => hm ev' (by simp [h']))]
+      rfl
+
+/-- the theorem's premise is satisfiable by a history with a relabel in it -/
+example : ∀ ev ∈ [[Mutation.renameAppLabel "old" "lib" none none], [Mutation.deleteModel "M"]],
+    ∀ m ∈ ev, keepsLabel ⟨"lib", "old", true⟩ m = true := by decide
+
+private def sigRelabel : ProjectSig :=
+  ⟨[⟨"old", "old", some "evolutions", none,
+     [⟨"M", "old_m", "\"id\"", [⟨"id", "AutoField", [("primary_key", "True")], none⟩], [], false, [], [], [], "None", "None"⟩]⟩]⟩
+
+/-- and it is needed: when a `RenameAppLabel` moves the models to a label that is *not* the one
+the runs start from, a later release no longer finds its app when it is run on its own, while
+the single run (which carries the new label along) succeeds -/
+theorem C04_cex_relabel_to_other_label :
+    (stepwise sqliteEnv {} ⟨"old", "old", true⟩
+        [[.renameAppLabel "old" "lib" none none], [.deleteModel "M"]] sigRelabel).toOption.isNone = true ∧
+    (direct sqliteEnv {} ⟨"old", "old", true⟩
+        [[.renameAppLabel "old" "lib" none none], [.deleteModel "M"]] sigRelabel).toOption.isSome = true := by
+  decide
 
 end DEvo.Props.C04
